@@ -77,7 +77,7 @@ var texts = []string{"", "", "Main St", "a,b", "say \"hi\"", "line1\nline2", "ZÃ
 func genText(t *rapid.T, label string) string { return rapid.SampledFrom(texts).Draw(t, label) }
 
 // AgencyZones are agency_timezone values: loadable, and unknown names (UTC fallback).
-var AgencyZones = []string{"America/New_York", "Europe/London", "Australia/Lord_Howe", "Asia/Kathmandu", "America/Havana", "America/Sao_Paulo", "America/Santiago", "Africa/Cairo", "UTC", "Etc/GMT+5", "Asia/Tokyo", "d", "Mars/Olympus", "America/New York"}
+var AgencyZones = []string{"America/New_York", "Europe/London", "Australia/Lord_Howe", "Asia/Kathmandu", "America/Havana", "America/Sao_Paulo", "America/Santiago", "Africa/Cairo", "UTC", "Etc/GMT+5", "Asia/Tokyo", "d", "Mars/Olympus", "America/New York", "PST", "EDT", "BST", "GMT+2"}
 
 // GenTime draws a GTFS time with its spelling.
 func GenTime(t *rapid.T, label string) TimeVal {
